@@ -426,7 +426,7 @@ fn group_key(recovery: &Recovery) -> String {
             .take(1)
             .map(|event| event["f"].to_string())
             .collect();
-        key.push_str(&format!("|f{}w{}d{}r{:?}", files, recovery.st["w"][0], recovery.st["disk"], resumed));
+        key.push_str(&format!("|f{}w{}d{}s{}r{:?}", files, recovery.st["w"][0], recovery.st["disk"], recovery.st["dsum"], resumed));
     }
     for line in &recovery.cont {
         if line["ev"] == "damage" {
